@@ -3,6 +3,7 @@ package sim
 import (
 	"encoding/json"
 	"fmt"
+	"hash/fnv"
 	"os"
 	"sort"
 	"strings"
@@ -67,6 +68,7 @@ type RunRecord struct {
 	Cmds       int            `json:"cmds"`
 	Replies    int            `json:"replies"`
 	SchedFp    string         `json:"schedFp"`
+	HistFp     string         `json:"histFp,omitempty"`
 	Nontrivial bool           `json:"nontrivial"`
 	Faults     map[string]int `json:"faults,omitempty"`
 	Probes     map[string]int `json:"probes,omitempty"`
@@ -141,4 +143,16 @@ func runProp(t *testing.T, pd *propDef, plan *Plan, tape *Tape, keepLog bool) *R
 		return pd.runner(t, plan, tape, keepLog)
 	}
 	return RunPlan(t, plan, tape, pd.chk, keepLog)
+}
+
+// histFp hashes the recorded history (who sent what at which step and what
+// came back when): together with the schedule fingerprint it is what the
+// determinism self-test compares between processes.
+func histFp(res *RunResult) string {
+	h := fnv.New64a()
+	for _, op := range res.History {
+		fmt.Fprintf(h, "%d/%d/%d/%d/%d/%v|", op.Client, op.Idx, op.Invoke, op.Return, int64(op.TReturn), op.Lost)
+		h.Write([]byte(op.Reply.Canon()))
+	}
+	return fmt.Sprintf("%016x", h.Sum64())
 }
